@@ -102,13 +102,13 @@ func poolInst(r *Rand, mode int) *XInst {
 		sh := poolShape(r, mode)
 		mn := Pick(r, append([]string{"MOV", "MOV"}, poolALU...))
 		if r.Bool() {
-			return mkInst(mn, mode, reg(w), xmem(sh, w, false, r.Intn(4), r.Intn(2)))
+			return mkInst(mn, mode, reg(w), xmem(sh, w, false, r.Intn(5), r.Intn(2)))
 		}
-		return mkInst(mn, mode, xmem(sh, w, false, r.Intn(4), r.Intn(2)), reg(w))
+		return mkInst(mn, mode, xmem(sh, w, false, r.Intn(5), r.Intn(2)), reg(w))
 	case 7:
 		sh := poolShape(r, mode)
 		mn := Pick(r, append([]string{"MOV", "MOV"}, poolALU...))
-		return mkInst(mn, mode, xmem(sh, w, true, r.Intn(4), r.Intn(2)), ximm(poolImm(r, w), r.Intn(3)))
+		return mkInst(mn, mode, xmem(sh, w, true, r.Intn(5), r.Intn(2)), ximm(poolImm(r, w), r.Intn(3)))
 	case 8:
 		max := map[int]int{8: 7, 16: 15, 32: 31}[w]
 		return mkInst(Pick(r, []string{"SHL", "SHR", "SAR"}), mode, reg(w), ximm(int64(r.Range(1, max)), 0))
